@@ -2,6 +2,7 @@ package main
 
 import (
 	"fmt"
+	"go/constant"
 	"go/token"
 	"go/types"
 	"os"
@@ -35,6 +36,8 @@ type Engine struct {
 	notes []string
 	strLits map[string]string
 	strLitDecls []string
+	fltLits map[string]string
+	fltVals map[string]constant.Value
 }
 
 func loadEngine(repo string, tags string) (*Engine, error) {
@@ -57,7 +60,7 @@ func loadEngine(repo string, tags string) (*Engine, error) {
 	prog.Build()
 	e := &Engine{repo: repo, fset: prog.Fset, prog: prog, pkgs: pkgs, spkgs: spkgs,
 		allFuncs: map[string]*ssa.Function{}, contracts: map[string]*Contract{}, macros: map[string]*Macro{},
-		specFns: map[string]*SpecFn{}, ghosts: map[string]*GhostVar{}, fieldInfo: map[string]*FieldClass{}, strLits: map[string]string{}}
+		specFns: map[string]*SpecFn{}, ghosts: map[string]*GhostVar{}, fieldInfo: map[string]*FieldClass{}, strLits: map[string]string{}, fltLits: map[string]string{}}
 	// path shortening: import path -> package name
 	var repl []string
 	type pr struct{ path, name string }
